@@ -97,7 +97,7 @@ def generate(seed, tier="quick"):
     prof = V.draw_profile(sub(seed, "profile"), max_depth=2)
     prof.special = [s for s in prof.special if s != "norepr"]
     prog = W.gen_program(rng, prof, {"prev": ["none", "same", "other", "edit", "slack", "wrong", "subset", "superset"], "n_files": (1, 2),
-                                     "n_sites": (1, 4), "n_tests": (1, 4), "styles": ["assert", "rec"], "raise_events": 0.2, "hand": 0.4})
+                                     "n_sites": (1, 4), "n_tests": (1, 4), "styles": ["assert", "rec"], "raise_events": 0.2, "hand": 0.4, "idle": 0.2})
     trng = sub(seed, "trouble")
     kinds = []
     for k in range(trng.choice([0, 1, 1, 2, 3])):
